@@ -27,6 +27,7 @@ CAT = {
     'factor': ('3*uint:3', {}, [('uint', 3)] * 3),
     'bracket': ('2*(uint:3, bool)', {}, [('uint', 3), ('bool', 1)] * 2),
     'nested': ('2*(uint:2, 2*(bool, pad:1)), int:3', {}, ([('uint', 2)] + [('bool', 1), ('pad', 1)] * 2) * 2 + [('int', 3)]),
+    'zero-factor': ('uint:4, 0*(hex:4, bool), 0*uint:3, int:4, 1*(bool)', {}, [('uint', 4), ('int', 4), ('bool', 1)]),
     'plain-brackets': ('(uint:2, (bool), int:2)', {}, [('uint', 2), ('bool', 1), ('int', 2)]),
     'kw-lengths': ('uint:n, int:m, bits:n', {'n': [1, 5, 9], 'm': [2, 8]}, [('uint', 'n'), ('int', 'm'), ('bits', 'n')]),
     'kw-factor': ('2*uint:n, pad:m', {'n': [3, 8], 'm': [0, 1, 5]}, [('uint', 'n'), ('uint', 'n'), ('pad', 'm')]),
@@ -247,6 +248,7 @@ EMBED = [  # token strings with embedded values and the equivalent pack call
     ('uintle:16=258, intbe:16=-2', ('uintle:16, intbe:16', [258, -2])),
     ('pad:3, uint:5=7', ('pad:3, uint:5', [7])),
     ('3*uint:2=1', ('3*uint:2', [1, 1, 1])),
+    ('0x1, 0*(0xf, 0b1), 0x2, 0*0xff', ('hex:4, hex:4', ['1', '2'])),
 ]
 
 
